@@ -833,7 +833,15 @@ fn spawn_gc_worker(mut gc_rx: UnboundedReceiver<GCTask>, store: Store) {
             crate::verif::point(Some("gc"), "gc.task", task.verif_args());
             match task {
                 GCTask::Remove(id) => {
-                    let _ = store.remove(&id);
+                    // Queued when a read found the frame expired. By now the id may have been
+                    // removed and imported again as another frame: only collect what is
+                    // (still) an expired time-TTL frame
+                    let still_expired = store.get(&id).is_some_and(|frame| {
+                        matches!(frame.ttl.as_ref(), Some(TTL::Time(ttl)) if is_expired(&frame.id, ttl))
+                    });
+                    if still_expired {
+                        let _ = store.remove(&id);
+                    }
                 }
 
                 GCTask::CheckHeadTTL {
